@@ -157,6 +157,10 @@ func main() {
 	rep.Assumptions = []string{"one goroutine per guard (owner)", "TLC explores the 4-owner state space completely; more owners are covered only by symmetry of the code in the owner"}
 	rep.Exhaustive = true
 	defer core.Cleanup()
+	if os.Getenv("C12_DIRECTED") == "composite" { // development aid (never commit its evidence)
+		compositeCancelled(rep)
+		rep.Finish()
+	}
 
 	core.Watchdog(90*time.Second, func(label string, since time.Duration) {
 		if strings.HasPrefix(label, "real:") {
@@ -224,6 +228,7 @@ func main() {
 	byteRanges(rep)
 	releaseAll(rep)
 	sameOwner(rep, core.Pick(args, 150000, 1500000))
+	compositeCancelled(rep)
 	// failure paths (spec/Faults.tla): every call of the operation through the OS interface fails once
 	faults.Run(rep, args, faults.Select{Ops: []string{"halt", "import", "drop"}, Monitors: []string{"locks"}})
 	rep.Finish()
